@@ -20,6 +20,40 @@ from props import _codecs
 from props._codecs import need
 
 
+def entry_key(F, rep):
+    """`execute f.mmm` finds the functions of the entry file under the labels the compiler wrote into it (`<path>#<name>`, path as given at compile
+    time, `\\` normalised to `/`).  Program::new therefore registers the entry file under the path it was given, separator-normalised and nothing
+    else: a key that went through a resolving call (canonicalize, absolute, ..) no longer equals the path part of the labels, the first call into
+    the entry file loads a second copy of it, and whatever the first copy had registered (its exports) is missing there."""
+    import rules
+    from mir import op_local, op_const
+    pn = F.fn("bytecode::interpreter::Program::new")
+    if pn is None:
+        raise AnchorMissing("bytecode::interpreter::Program::new")
+    ALLOWED = rules.TRANSPARENT | {"alloc::rc::Rc::new", "alloc::str::<impl str>::replace", "alloc::string::String::from", "alloc::string::ToString::to_string"}
+    sinks = [(c, 1) for c in pn.calls_to("std::collections::hash::map::HashMap::insert")] + [(c, 0) for c in pn.calls_to("bytecode::file::MScriptFile::open")]
+    rep.floor("C04.entry-key uses of the entry path in Program::new", len(sinks), 2)
+    for c, ai in sinks:
+        l = op_local(c.args[ai])
+        o = rules.origins(pn, l, transparent=ALLOWED) if l is not None else set()
+        by_bb = {x.bb: x for x in pn.calls()}
+        calls = [by_bb[x[1]] for x in o if x[0] == "call"]
+        params = [x for x in o if x[0] == "arg"]
+        other = [x for x in o if x[0] not in ("call", "arg")]
+        st = "ok" if (params and not calls and not other) else ("violated" if calls else "undecided")
+        rep.ob("C04.entry-key", "Program::new: the key given to %s is the path it was given (separators normalised, not resolved)" % mir.short(c.callee()), st,
+               "the key derives from %s" % (sorted(mir.short(x.callee()) for x in calls) or sorted(str(x) for x in params + other)), c.span, fn=pn.path,
+               key="C04.entry-key|%s" % mir.short(c.callee()))
+    # the only rewriting allowed is `\\` -> `/`
+    for c in pn.calls_to("alloc::str::<impl str>::replace"):
+        k = op_const(c.args[1]) if len(c.args) > 1 else None
+        to = rules.literal_of(pn, c.args[2]) if len(c.args) > 2 else None
+        tos = {x[1] for x in to if isinstance(x, tuple) and x and x[0] == "str"} if isinstance(to, (list, set, tuple)) else {to}
+        good = k is not None and k.get("int") == "92" and tos == {"/"}
+        rep.ob("C04.entry-key", "Program::new rewrites only the path separator", "ok" if good else "violated", "replace(%s, %r)" % (k, to), c.span, fn=pn.path,
+               key="C04.entry-key|separator")
+
+
 def run(ctx, rep):
     F = ctx.facts("default", ["bytecode", "compiler", "bytecode_dev_transpiler"])
     rep.explain("C04: the writer CompiledItem::repr is evaluated abstractly (symbolic argument) to its per-argument output expression; the reader "
@@ -27,6 +61,7 @@ def run(ctx, rep):
                 "finite composition over all class singletons, pairs and the empty string. Plus literal/const agreement on record framing.")
     rep.assume("NUL inside an argument is outside the property's alphabet; I/O errors are not modelled")
     _codecs.fresh_output_files(F, rep, "C04.fresh-file", ["compiler"], 1)
+    entry_key(F, rep)
     rep.assume("a character not compared against any constant by the reader behaves like the class representative 'x' (the reader touches "
                "characters only through comparisons with constants and char::is_whitespace)")
     try:
